@@ -74,4 +74,16 @@ META = {
         "note": "etcd is the real server (embedded); MySQL is represented by a fake engine implementing the statement shapes of mysql.go with documented LIKE/upsert/transaction semantics - differences of a real server (collation, isolation level) are assumptions.",
         "technique": "property-based testing (rapid), stateful model-based oracle with full-state comparison, fault injection",
     },
+    "C13": {
+        "text": "The interleaving of catalog writes with the reader's subscribe/watch/list/start-watch steps is owned by the harness (decorating MetaOp) on top of a real etcd, real EtcdOp, real CollectionReader and real channel manager. Found the duplicate-start error, the duplicate create-partition event and the partition-before-collection hang (all fixed).",
+        "design_ref": "DESIGN.md section 4 C13",
+        "note": "Only write-vs-reader-step order is controlled; delivery order between the collection and partition watchers and the 16-worker event pool are sampled.",
+        "technique": "property-based testing (rapid) with harness-controlled interleaving points, end-state oracle",
+    },
+    "C15": {
+        "text": "Differential test of GetAllDroppedObj() on generated catalogs written into a real etcd against a reference function derived from the statement, compared as whole maps (no missing, no extra, right horizon). Found the stale database name for partitions without a target (fixed).",
+        "design_ref": "DESIGN.md section 4 C15",
+        "note": "Real etcd + real EtcdOp; target is a fake api.TargetAPI.",
+        "technique": "property-based testing (rapid), differential against reference function",
+    },
 }
